@@ -167,12 +167,19 @@ pub fn generate(prop: &str, thorough: bool, rng: &mut Rng) -> Case {
             if rng.chance(1, 5) {
                 cfg.insert("filter_mod".into(), k as i64 + 1);
             }
-            let waiters = 1 + rng.below(3);
-            for _ in 0..waiters {
+            // with two keys, a third of the runs: the keys collide on their full hash and the other key has a fetch in
+            // flight too (rounds are per key, not per hash: the insert must close only its own key's round)
+            let collide = keys == 2 && rng.chance(1, 3);
+            if collide {
+                cfg.insert("hmode".into(), 1);
+            }
+            let waiters = 1 + rng.below(3) + collide as usize;
+            for wi in 0..waiters {
                 let mut ops = vec![];
                 if rng.chance(1, 3) {
                     ops.push(Op::Yield { n: 1 });
                 }
+                let k = if collide && wi == 0 { 1 - k } else { k };
                 ops.push(Op::Fetch { k, ver: vc.next(), w: 1, yields: 1 + rng.below(5) as u8, fail: rng.chance(1, 10), hold: rng.chance(1, 3) });
                 if rng.chance(1, 2) {
                     ops.push(Op::Get { k, hold: false });
